@@ -27,7 +27,7 @@ MIN_KEYS = 60
 REQUIRED = [
     "reorient:geometries", "reorient:judged", "reorient:input-rotation", "reorient:input-mirrored",
     "reorient:canonical-48-of-48", "reorient:jitter:none", "reorient:jitter:large", "reorient:angle:15-25",
-    "reorient:angle:25-40",
+    "reorient:angle:25-40", "reorient:angle:40-50",
     "sphere:judged", "sphere:nonempty-proper-subset", "sphere:default-radius", "sphere:default-radius:hit",
     "sphere:default-radius:miss", "sphere:ratio:0.99", "sphere:ratio:1.01", "sphere:exact-boundary-vertex",
     "plane:judged", "plane:through-0", "plane:through-3+", "plane:offset-inside-tolerance",
@@ -71,7 +71,7 @@ ASSUMPTIONS = [
 
 TOL = orc.TOL
 JITTER = {"none": 0.0, "tiny": 1e-7, "small": 0.05, "medium": 0.15, "large": 0.25}
-ANGLES = {"0-5": (0.0, 5.0), "5-15": (5.0, 15.0), "15-25": (15.0, 25.0), "25-40": (25.0, 40.0)}
+ANGLES = {"0-5": (0.0, 5.0), "5-15": (5.0, 15.0), "15-25": (15.0, 25.0), "25-40": (25.0, 40.0), "40-50": (40.0, 50.0)}
 PERP_SIDES = {s: [t for t in hexconv.SIDE_NAMES if t not in (s, orc.OPPOSITE[s])] for s in hexconv.SIDE_NAMES}
 
 
@@ -96,7 +96,9 @@ def _cone(rng, axis, lo_deg, hi_deg):
 # ======================================================================================================
 def gen_reorient(rng, jclass=None, aclass=None, front=None, top=None):
     jclass = jclass or rng.choice(["none", "tiny", "small", "medium", "medium", "large", "large"])
-    aclass = aclass or rng.choice(["0-5", "5-15", "15-25", "25-40", "25-40"])
+    aclass = aclass or rng.choice(["0-5", "5-15", "15-25", "25-40", "25-40", "40-50"])
+    if aclass == "40-50":
+        jclass = rng.choice(["none", "tiny"])  # strongly oblique views only of blocks with planar sides (boxes)
     j, (alo, ahi) = JITTER[jclass], ANGLES[aclass]
     shrunk = False
     for attempt in range(200):
@@ -127,10 +129,10 @@ def gen_reorient(rng, jclass=None, aclass=None, front=None, top=None):
         d_ceil = _cone(rng, orc.outward_normal(pts, t), alo, ahi)
         observer = centre + d_obs * diam * 10 ** rng.uniform(0.7, 2)
         ceiling = centre + d_ceil * diam * 10 ** rng.uniform(0.7, 2)
-        exp = orc.expected_numbering(pts, observer, ceiling)
+        exp = orc.expected_numbering(pts, observer, ceiling, sequential=(aclass == "40-50"))
         if exp is None:
             continue
-        if exp[2]["front"] != f or exp[2]["top"] != t:
+        if aclass != "40-50" and (exp[2]["front"] != f or exp[2]["top"] != t):
             continue
         return {"kind": "reorient", "pts": [_fl(p) for p in pts], "observer": _fl(observer), "ceiling": _fl(ceiling),
                 "jitter": jclass + ("(shrunk)" if shrunk else ""), "angle": aclass + ("(shrunk)" if shrunk else ""),
@@ -148,12 +150,15 @@ def run_reorient(ctx, case):
     if not orc.is_convex(base):
         ctx.count("reorient:skipped-not-convex")
         return
-    exp = orc.expected_numbering(base, observer, ceiling)
+    sequential = str(case.get("angle", "")).startswith("40-50")
+    exp = orc.expected_numbering(base, observer, ceiling, sequential=sequential)
     if exp is None:
         ctx.count("reorient:skipped-not-general-position")
         return
     expected, margin, assigned = exp
-    d_obs, d_raw, _, _, _, _ = orc.view_directions(base, observer, ceiling)
+    d_obs, d_raw, d_perp, _, _, _ = orc.view_directions(base, observer, ceiling)
+    if sequential:
+        d_raw = d_perp  # seen from an edge, "faces the ceiling point" is meant among the four sides around the front
     ctx.count("reorient:geometries")
     ctx.count("reorient:jitter:" + case["jitter"])
     ctx.count("reorient:angle:" + case["angle"])
